@@ -386,6 +386,8 @@ def model_value(v, model):
         if z3.is_false(r):
             return False
         raise ValueError(f"term does not evaluate under the model: {r}")
+    if hasattr(v, "chars") and hasattr(v, "_symstr"):
+        return "".join(c if isinstance(c, str) else str(model_value(c, model)) for c in v.chars)
     if isinstance(v, Obj):
         return Obj(v.cls, oid=v.oid, **{k: model_value(x, model) for k, x in v.f.items()})
     if isinstance(v, tuple):
